@@ -70,7 +70,7 @@ def run(ctx):
     ctx.require_events('Fitter.__init__:post', 'Fitter.fit:post', 'grid_checked')
     ctx.require_regimes('step:written-as-integer', 'range:exact-multiple-of-step', 'limit_penalised', 'unit:flux-not-mJy', 'apertures:per-band-tables', 'n=1', 'n=2', 'n>2', 'beyond_table', 'av_clipped', 'av_interior', 'best_first', 'best_mid',
                         'best_last', 'style:v1', 'style:v2name', 'style:v2wav', 'memmap_on', 'memmap_off', 'unit:pc', 'unit:cm', 'angle:arcmin', 'angle:deg',
-                        'aperture:exactly-smallest-at-dmin')
+                        'aperture:exactly-smallest-at-dmin', 'grid:over-a-million-cells')
     n_pkg = 14 if ctx.quick else 160
     n_rng = 3
     n_src = 12 if ctx.quick else 25
@@ -79,11 +79,19 @@ def run(ctx):
         n_models = int(rng.choice([1, 3, 8, 20]))
         n_bands = int(rng.integers(1, 7))        # a single-filter fitter is inside the quantifier (>=1 fitted point)
         n_ap = int(rng.integers(2, 9))
-        names = gen.model_names(rng, n_models)
+        # one package per run is large: hundreds of models x hundreds of trial distances (a small step over three decades), more
+        # than 2**20 (model, distance, band) cells - "any log-distance step", any grid
+        big = ip == 1 and ctx.shard == 0
+        if big:
+            n_models, n_bands = 801, 3
+            ctx.regime('grid:over-a-million-cells')
+        names = gen.model_names(rng, n_models, 'lex' if big else None)
         wav = gen.band_wavelengths(rng, n_bands)
         style = ['v1', 'v2name', 'v2wav', 'v1'][(ip + ctx.shard) % 4] if ip < 8 else str(rng.choice(['v1', 'v2name', 'v2wav']))
         fmt = str(rng.choice(['D', 'E']))
         step = float(rng.choice([0.01, 0.02, 0.025, 0.05, 0.1, 0.3])) if ip % 4 != 3 else [1.0, 0.25, 0.5, 0.125][((ip // 4) + ctx.shard) % 4]      # (dyadic steps: see 'exact-multiple')
+        if big:
+            step = 0.005
         if step == 1.0:
             step = 1          # written to models.conf as 'logd_step = 1' (no decimal point)
             ctx.regime('step:written-as-integer')
@@ -146,6 +154,9 @@ def run(ctx):
         for ir in range(n_rng):
             exact = step in (0.125, 0.25, 0.5, 1.0) and ir == 0
             dmin, dmax, kind = distance_range(rng, step, exact=exact, a=a_exact if exact else None)
+            if big:
+                dmin = float(gen.loguniform(rng, 0.05, 1.0))
+                dmax, kind = dmin * 10 ** 3.0, 'wide'
             if exact:
                 ctx.regime('range:exact-multiple-of-step')
             # apertures: theta such that theta*dmin_pc sits inside the table, some pushing beyond a_max at dmax
@@ -242,7 +253,7 @@ def run(ctx):
                 ctx.event('fluxes_state_probe_unavailable')
 
             logd = np.log10(dist)
-            for isrc in range(n_src):
+            for isrc in range(n_src if not big else 2):
                 m0 = int(rng.integers(n_models))
                 j0 = int(rng.integers(n))
                 a0 = float(rng.uniform(0, 15))
